@@ -72,24 +72,24 @@ func Hostile() []Seed {
 		add("64k-lbrack", rep("[", MaxLen))
 		add("64k-rparen", rep(")", MaxLen))
 		add("64k-rbrace", rep("}", MaxLen))
-		add("balanced-parens-30k", rep("(", 30000)+rep(")", 30000))
-		add("func-body-parens-20k", "func main() { x := "+rep("(", 20000)+"1"+rep(")", 20000)+" }\n")
-		add("func-body-braces-20k", "func main() "+rep("{", 20000)+rep("}", 20000)+"\n")
-		add("func-body-index-10k", "func main() { x := a"+rep("[a", 10000)+rep("]", 10000)+" }\n")
-		add("unary-minus-60k", "const x = "+rep("-", 60000)+"1\n")
-		add("unary-not-60k", "const x = "+rep("!", 60000)+"true\n")
-		add("deref-60k", "func main() { "+rep("*", 60000)+"p = 1 }\n")
-		add("slice-type-30k", "global x: "+rep("[]", 30000)+"int\n")
-		add("ptr-type-60k", "global x: "+rep("*", 60000)+"int\n")
+		add("balanced-parens-10k", rep("(", 10000)+rep(")", 10000))
+		add("func-body-parens-8k", "func main() { x := "+rep("(", 8000)+"1"+rep(")", 8000)+" }\n")
+		add("func-body-braces-8k", "func main() "+rep("{", 8000)+rep("}", 8000)+"\n")
+		add("func-body-index-5k", "func main() { x := a"+rep("[a", 5000)+rep("]", 5000)+" }\n")
+		add("unary-minus-20k", "const x = "+rep("-", 20000)+"1\n")
+		add("unary-not-20k", "const x = "+rep("!", 20000)+"true\n")
+		add("deref-20k", "func main() { "+rep("*", 20000)+"p = 1 }\n")
+		add("slice-type-15k", "global x: "+rep("[]", 15000)+"int\n")
+		add("ptr-type-20k", "global x: "+rep("*", 20000)+"int\n")
 		add("map-type-5k", "global x: "+rep("map[int]", 5000)+"int\n")
 		add("struct-type-3k", "type T "+rep("struct{x ", 3000)+"int"+rep("}", 3000)+"\n")
 		add("func-type-5k", "type T "+rep("func(x ", 5000)+"int"+rep(")", 5000)+"\n")
 		add("func-lit-5k", "func main() { "+rep("func(){", 5000)+rep("}", 5000)+" }\n")
 		add("if-nest-5k", "func main() { "+rep("if x {", 5000)+rep("}", 5000)+" }\n")
 		add("else-if-chain-5k", "func main() { if x {} "+rep("else if x {} ", 5000)+"}\n")
-		add("binary-chain-20k", "const x = 1"+rep("+1", 20000)+"\n")
-		add("selector-chain-20k", "func main() { x"+rep(".x", 20000)+" }\n")
-		add("call-chain-20k", "func main() { f"+rep("()", 20000)+" }\n")
+		add("binary-chain-8k", "const x = 1"+rep("+1", 8000)+"\n")
+		add("selector-chain-8k", "func main() { x"+rep(".x", 8000)+" }\n")
+		add("call-chain-8k", "func main() { f"+rep("()", 8000)+" }\n")
 		add("composite-nest-5k", "global x = "+rep("T{", 5000)+rep("}", 5000)+"\n")
 		add("wz-block-nest-5k", "函数 主控:\n"+rep("区块\n", 5000)+rep("完毕\n", 5000)+"完毕\n")
 		add("wz-if-nest-3k", "函数 主控:\n"+rep("如果 真:\n", 3000)+rep("完毕\n", 3000)+"完毕\n")
@@ -98,7 +98,7 @@ func Hostile() []Seed {
 		add("wat-block-nest-10k", "(module (func "+rep("(block ", 10000)+rep(")", 10000)+"))")
 		add("wat-folded-nest-5k", "(module (func (drop "+rep("(i32.add (i32.const 1) ", 5000)+"(i32.const 0)"+rep(")", 5000)+")))")
 		add("wat-module-nest", rep("(module ", 8000))
-		add("wat-flat-blocks-10k", "(module (func "+rep("block ", 10000)+rep("end ", 10000)+"))")
+		add("wat-flat-blocks-5k", "(module (func "+rep("block ", 5000)+rep("end ", 5000)+"))")
 		add("wat-if-nest", "(module (func "+rep("(if (i32.const 1) (then ", 3000)+rep("))", 3000)+"))")
 		add("wat-block-comment-nest", rep("(;", 20000)+rep(";)", 20000))
 		// --- literals
